@@ -81,6 +81,9 @@ def main(argv=None) -> int:
                     good = got["code"] == 0
                 elif want == "any":
                     good = True
+                elif want == "alarm":
+                    # the check does not pass: a violation or an obligation it could not discharge (never silently ok)
+                    good = got["code"] in (1, 2)
                 else:
                     good = got["code"] == 1 and (want == "viol" or want in rules)
                 status = "ok     " if good else "MISMATCH"
